@@ -54,8 +54,8 @@ public:
             if (qApp->thread() != m_thread->thread()) {
                 m_thread->moveToThread(qApp->thread());
             }
-            QObject::connect(qApp, &QCoreApplication::aboutToQuit, m_thread,
-                             [this]() { resetOwnThread(); });
+            m_quitConnection = QObject::connect(qApp, &QCoreApplication::aboutToQuit, m_thread,
+                                                [this]() { resetOwnThread(); });
         }
 
         QObject::connect(m_thread, &QThread::finished, m_thread, &QThread::deleteLater);
@@ -107,6 +107,10 @@ public:
             m_thread->wait();
         }
         QTLOGGER_VERIF_POINT("rs.joined", this, 0, 0);
+
+        // The thread object lives on until its deleteLater is processed; it must not call back
+        // into this handler, which may be gone by then
+        QObject::disconnect(m_quitConnection);
 
         m_thread.clear();
         m_worker = nullptr;
@@ -171,6 +175,7 @@ private:
 
 private:
     QPointer<QThread> m_thread;
+    QMetaObject::Connection m_quitConnection;
     Worker *m_worker = nullptr;
     QMutex m_mutex;
     QAtomicInt m_pendingCount;
